@@ -569,6 +569,12 @@ func (mq *MessageQueue) sendMessage() {
 		// Convert want lists to a Bitswap Message
 		message, onSent := mq.extractOutgoingMessage(supportsHave)
 		if message.Empty() {
+			// Everything that was put into the message has been cancelled in
+			// the meantime. Wants that did not fit into it are still pending:
+			// schedule them, their work signal has already been consumed.
+			if mq.pendingWorkCount() > 0 {
+				mq.signalWorkReady()
+			}
 			return
 		}
 
